@@ -29,7 +29,7 @@ META = {
         "distinct_nontrivial = distinct terminal per-message logs."
     ),
     "assumptions": [
-        "asyncio semantics as implemented by BaseEventLoop; timers fire exactly at their deadline on the virtual clock",
+        "asyncio semantics as implemented by BaseEventLoop; timers fire exactly at their deadline on the virtual clock; untimed events happen at timer deadlines or at the harness clock ticks (0.15 s steps) of the tick scenarios",
         "shutdown begins at the stop request, at the N-th message taken, or when a finite stream ends",
     ],
     "required_counters": ["scenarios", "terminal_states"],
@@ -121,11 +121,18 @@ class C05World(RecvWorld):
             return False
         return self.A is not None and len(self.cb_open) >= self.A
 
+    d2_seen = False
+
+    def after_step(self) -> None:
+        super().after_step()
+        if self.t_sd is not None and self.W is not None and not self.d2_seen and self._runner_parked_on_slot():
+            self.d2_seen = True
+
     def _classify_late(self) -> str:
         # D2: the runner has to own an execution slot before it can see the end-of-stream
         # sentinel (and before it hands the prefetcher the permit it needs to notice the
         # shutdown), so while every slot is busy wait_tasks_timeout never starts.
-        if self.W is not None and self.cb_open and self._runner_parked_on_slot():
+        if self.W is not None and (self.d2_seen or (self.cb_open and self._runner_parked_on_slot())):
             return "C05:D2-wait-tasks-timeout-not-started-while-all-slots-busy"
         return "C05:late-return"
 
@@ -153,6 +160,7 @@ class C05World(RecvWorld):
             None if self.t_sd is None else min(now - self.t_sd, CAP_US),
             None if (self.t_sd is None or self.t_last_finish is None) else min(now - self.t_last_finish, CAP_US),
             sum(self._taken_after_stop_flags()),
+            self.d2_seen,
         )
 
 
@@ -178,6 +186,10 @@ def scenarios(tier: str) -> List[Dict[str, Any]]:
             if w is not None and "n" not in w_ and len(w_) > 1 and stream == "finite" and tier == "quick":
                 continue
             out.append({"A": a, "P": p, "N": n, "W": w, "stream": stream, "stop": True, "msgs": _msgs(w_), "level": 0})
+            if w is not None and w >= 0.3 and "n" in w_ and ("s" in w_ or "a" in w_) and a != 1 and p == 0 and n is None and stream == "infinite" and (tier == "thorough" or len(w_) == 2):
+                # clock ticks between the code's own timers: completions can fall inside the drain window
+                out.append({"A": a, "P": p, "N": n, "W": w, "stream": stream, "stop": True, "msgs": _msgs(w_), "level": 0,
+                            "ticks": [150_000, 450_000, 600_000, 750_000, 900_000]})
     for w_ in l1_words:
         for (a, p, n, w) in l1_cfg:
             out.append({"A": a, "P": p, "N": n, "W": w, "stream": "infinite", "stop": True, "msgs": _msgs(w_), "level": 1})
